@@ -13,7 +13,7 @@ def run(tier):
     po = common.proof_obligations("GasolVerif.Proofs.NormSound", THEOREMS)
     violations = [{"kind": "broken-proof-obligation", "what": b, "no_failing_input": True, "input": b} for b in po["broken"]]
     import gen
-    extra = gen.stack_corpus() + gen.deep_operand_corpus() + gen.cross_region_corpus() + gen.deep_stack_blocks(sd * 19 + 1, 120 if tier == 'quick' else 1500) + gen.blocks(sd * 17 + 3, 150 if tier == 'quick' else 2000, profiles=('stack',))
+    extra = gen.stack_corpus() + gen.deep_operand_corpus() + gen.deep_same_operand_corpus() + gen.cross_region_corpus() + gen.deep_stack_blocks(sd * 19 + 1, 120 if tier == 'quick' else 1500) + gen.blocks(sd * 17 + 3, 150 if tier == 'quick' else 2000, profiles=('stack',))
     res = c02.collect(tier, sd + 1000, rng, greedy=True, extra=extra)
     c = Counter()
     reqs, meta = [], []
